@@ -33,21 +33,36 @@ def sh(cmd, **kw):
 
 
 meta = {"name": name, "property": prop, "needs": open(notes).read() if os.path.exists(notes) else ""}
-rc, o = sh("git -C /repo status --porcelain --untracked-files=no")
-assert o.strip() == "", "repo not clean"
+WT = None
+if "--wt" in sys.argv:
+    # try the change in a private worktree of /repo's HEAD (several seeds at once); the checks read it through VERIF_REPO
+    WT = "/tmp/seedwt/" + name
+    sh("git -C /repo worktree remove --force %s; rm -rf %s %s.out" % (WT, WT, WT))
+    rc, o = sh("mkdir -p /tmp/seedwt && git -C /repo worktree add -q --detach %s HEAD" % WT)
+    assert rc == 0, o
+    TREE = WT
+    ENV = "VERIF_REPO=%s VERIF_OUT=%s.out " % (WT, WT)
+else:
+    rc, o = sh("git -C /repo status --porcelain --untracked-files=no")
+    assert o.strip() == "", "repo not clean"
+    TREE = "/repo"
+    ENV = ""
 # demo without the change
-rc0, o0 = sh("g++ -std=c++17 -O0 -w -I/repo/include %s -o /tmp/seed_demo && /tmp/seed_demo" % demo)
-rc, o = sh("git -C /repo apply %s" % patch)
+rc0, o0 = sh("g++ -std=c++17 -O0 -w -I%s/include %s -o /tmp/seed_demo_%s && /tmp/seed_demo_%s" % (TREE, demo, name, name))
+rc, o = sh("git -C %s apply %s" % (TREE, patch))
 assert rc == 0, "patch does not apply: " + o
 try:
-    rc1, o1 = sh("g++ -std=c++17 -O0 -w -I/repo/include %s -o /tmp/seed_demo && /tmp/seed_demo" % demo)
+    rc1, o1 = sh("g++ -std=c++17 -O0 -w -I%s/include %s -o /tmp/seed_demo_%s && /tmp/seed_demo_%s" % (TREE, demo, name, name))
     results = {}
     for c in checks:
-        rcc, oc = sh("cd /verif && python3 check.py %s --tier quick" % c)
+        rcc, oc = sh("cd /verif && %spython3 check.py %s --tier quick" % (ENV, c))
         lines = [l for l in oc.split("\n") if l.startswith(("VIOLATION", "OK ", "KNOWN"))]
         results[c] = {"exit": rcc, "lines": lines[:4]}
 finally:
-    sh("git -C /repo checkout -- .")
+    if WT:
+        sh("git -C /repo worktree remove --force %s; rm -rf %s %s.out /tmp/seed_demo_%s" % (WT, WT, WT, name))
+    else:
+        sh("git -C /repo checkout -- .")
 shutil.copy(patch, os.path.join(out, "patch.diff"))
 shutil.copy(demo, os.path.join(out, "demo.cpp"))
 if "--bg-suite" in sys.argv:
